@@ -427,11 +427,24 @@ impl ScalarIndex for BitmapIndex {
                     Bound::Unbounded => Bound::Unbounded,
                 };
 
-                let keys: Vec<_> = self
-                    .index_map
-                    .range((range_start, range_end))
-                    .map(|(k, _v)| k.clone())
-                    .collect();
+                // BTreeMap::range panics on an inverted range (e.g. `x BETWEEN 1 AND 0`),
+                // which simply matches nothing.
+                let is_empty_range = match (&range_start, &range_end) {
+                    (Bound::Included(s), Bound::Included(e))
+                    | (Bound::Included(s), Bound::Excluded(e))
+                    | (Bound::Excluded(s), Bound::Included(e)) => s > e,
+                    (Bound::Excluded(s), Bound::Excluded(e)) => s >= e,
+                    _ => false,
+                };
+
+                let keys: Vec<_> = if is_empty_range {
+                    Vec::new()
+                } else {
+                    self.index_map
+                        .range((range_start, range_end))
+                        .map(|(k, _v)| k.clone())
+                        .collect()
+                };
 
                 metrics.record_comparisons(keys.len());
 
